@@ -204,7 +204,7 @@ def check_api(ctx, case):
 
 
 def part_api(ctx):
-    n = 400 if ctx.tier == "quick" else 15000
+    n = 1200 if ctx.tier == "quick" else 15000
     hyp_run(ctx, API, lambda c: check_api(ctx, c), n, name="api")
 
 
@@ -363,7 +363,7 @@ def check_e2e(ctx, case):
 
 
 def part_e2e(ctx):
-    n = 60 if ctx.tier == "quick" else 2000
+    n = 200 if ctx.tier == "quick" else 2000
     hyp_run(ctx, E2E, lambda c: check_e2e(ctx, c), n, name="e2e")
 
 
